@@ -96,6 +96,11 @@ func main() {
 			g.run()
 		}
 	}
+	for _, p := range pkgs {
+		if p.PkgPath == modPath+"/pkg/storage/file" && len(p.CompiledGoFiles) > 0 {
+			writeRestartOverlay(p)
+		}
+	}
 	if *reportFile != "" {
 		b, _ := json.MarshalIndent(rep, "", " ")
 		if err := os.WriteFile(*reportFile, b, 0o644); err != nil {
@@ -105,6 +110,43 @@ func main() {
 	fmt.Printf("simgen: %d files rewritten, %v, %d warnings\n", rep.Files, rep.Counts, len(rep.Warnings))
 	for _, w := range rep.Warnings {
 		fmt.Println("simgen: warning:", w)
+	}
+}
+
+// writeRestartOverlay adds one file to the scratch copy of pkg/storage/file:
+// VerifProcessRestart gives the package-level state the value it has in a
+// newly started process.  Today that state is the message id counter (a
+// generator goroutine started by init feeding a buffered channel).  If the
+// package no longer has that shape the function does nothing and says so.
+func writeRestartOverlay(p *packages.Package) {
+	resettable := false
+	if ch, ok := p.Types.Scope().Lookup("countChannel").(*types.Var); ok {
+		if fn, ok := p.Types.Scope().Lookup("countGenerator").(*types.Func); ok {
+			sig := fn.Type().(*types.Signature)
+			if c, ok := ch.Type().(*types.Chan); ok && types.Identical(c.Elem(), types.Typ[types.Int]) &&
+				sig.Params().Len() == 1 && types.Identical(sig.Params().At(0).Type(), ch.Type()) && sig.Results().Len() == 0 {
+				resettable = true
+			}
+		}
+	}
+	src := "//go:build verif\n\npackage file\n\n"
+	if resettable {
+		src += "import simrt \"" + rtPath + "\"\n\n" +
+			"// VerifProcessRestart: a new process starts its id counter from the beginning.\n" +
+			"func VerifProcessRestart() bool {\n" +
+			"\tcountChannel = make(chan int, cap(countChannel))\n" +
+			"\tc := countChannel\n" +
+			"\tsimrt.Go(\"file.countGenerator\", func() { countGenerator(c) })\n" +
+			"\treturn true\n}\n"
+		rep.Counts["overlay.id-counter-restart"]++
+	} else {
+		src += "// VerifProcessRestart: no package-level state of the known shape to reset.\n" +
+			"func VerifProcessRestart() bool { return false }\n"
+		warnf("pkg/storage/file: countChannel/countGenerator not found in the expected shape; process restarts do not reset the id counter")
+	}
+	dir := filepath.Dir(p.CompiledGoFiles[0])
+	if err := os.WriteFile(filepath.Join(dir, "zz_verif_restart.go"), []byte(src), 0o644); err != nil {
+		fatalf("overlay: %v", err)
 	}
 }
 
